@@ -48,7 +48,7 @@ e0ba138:C09
 4f685e4:C08
 e53eedd:C08
 aa19a68:C16
-0072067:C01
+0072067:C01,C02
 "
 [ -n "$REVERT_ONLY" ] && PAIRS="$REVERT_ONLY"
 for pair in $PAIRS; do
